@@ -2200,7 +2200,9 @@ impl<'a> Socket<'a> {
             tcp_trace!("starting zero-window-probe timer for t+{}", delay);
             self.timer.set_for_zero_window_probe(cx.now(), delay);
         }
-        if self.remote_win_len != 0 && self.timer.is_zero_window_probe() {
+        if (self.remote_win_len != 0 || self.tx_buffer.is_empty())
+            && self.timer.is_zero_window_probe()
+        {
             tcp_trace!("stopping zero-window-probe timer");
             if self.remote_last_seq != self.local_seq_no {
                 // Data sent before the window closed is still unacknowledged:
@@ -2556,6 +2558,12 @@ impl<'a> Socket<'a> {
             // If we need to transmit a keep-alive packet, do it.
             tcp_trace!("keep-alive timer expired");
         } else if self.timer.should_zero_window_probe(cx.now()) {
+            if self.tx_buffer.is_empty() {
+                // Nothing left to probe with. Stop the timer: an expired probe timer that
+                // is never rewound would make us emit empty segments for ever.
+                self.timer.set_for_idle(cx.now(), self.keep_alive);
+                return Ok(());
+            }
             tcp_trace!("sending zero-window probe");
         } else if self.timer.should_close(cx.now()) {
             // If we have spent enough time in the TIME-WAIT state, close the socket.
